@@ -194,6 +194,40 @@ def window_path(width, via_reader):
     return path
 
 
+def after_runaway_path(n_prefix):
+    """through the reader: a readout that never ends (discarded by the buffer guard), then a well-formed readout whose data digit and
+    four checksum characters are free: validity must be judged on that readout's own bytes only"""
+    def path(eng, ctx):
+        prefix = PC.long_unfinished_readout(n_prefix)
+        d = PC.free_digit("d")
+        hx = [sym_octet(f"h{i}") for i in range(4)]
+        body = PC.IDENT + PC.CRLF + list(b"1-0:1.8.0(00012") + [d] + list(b"*kWh)\r\n") + [0x21]
+        r1 = body + hx + PC.CRLF
+        r2 = ref_p1.build_readout(b"/ADN9 6534", [b"1-0:1.7.0(0001.727*kW)"])
+        stream = SBytes(prefix + list(b"\r\n") + r1 + r2)
+        a = len(prefix)
+        for cuts in [(a,), (a, a + 2), (a // 2, a, a + 2 + len(r1))]:
+            chunks = PC.split(stream, cuts)
+            w = {"kind": "p1", "chunks": chunks}
+            try:
+                _, rs = PC.read_chunks(chunks)
+            except (PathAbort, EngineLimit, EngineFault):
+                raise
+            except Exception:
+                ctx.reach("reader-raises")
+                continue
+            if ctx.witness is None:
+                ctx.witness, ctx.obs = w, PC.p1_sig(rs)
+                ctx.nontrivial()
+            for r in rs:
+                if len(r.as_bytes) > 2000:
+                    continue                      # the runaway readout itself, if it is returned at all
+                if not readout_assertions(eng, ctx, r, w, f"after a runaway readout of {a} octets, cuts={cuts}"):
+                    return
+            ctx.reach("assert")
+    return path
+
+
 def scenarios(tier):
     q = tier == "quick"
     A = inject.assumptions(("p1",))
@@ -207,6 +241,9 @@ def scenarios(tier):
            Scenario("genuine readout with a 1-octet free window at every offset, through ModeDReader", window_path(1, True),
                     bounds={"readout_octets": len(FIXTURE), "window": 1, "splittings": "one call; cuts around the window, right before/after '!', inside and after the checksum - all must give the same readouts and validity"}, domains=("p1",), frontier=3, assumptions=A, replay_cap=80),
            ]
+    for n in ((8300,) if q else (7900, 8300, 20000)):
+        out.append(Scenario(f"through ModeDReader after a runaway readout of ~{n} octets: readout with a free digit and 4 free checksum characters", after_runaway_path(n),
+                            bounds={"prefix_octets": n, "free": "one data digit, four checksum characters"}, domains=("p1",), frontier=6, assumptions=A, replay_cap=60))
     if not q:
         out.append(Scenario("genuine readout with a 2-octet free window at every offset (direct)", window_path(2, False), bounds={"readout_octets": len(FIXTURE), "window": 2},
                             domains=("p1",), frontier=3, assumptions=A, replay_cap=80))
